@@ -264,11 +264,12 @@ impl Request {
 
         r.next_if(|b| *b==b' ').ok_or_else(Response::BadRequest)?;
         
-        self.path.init_with_request_bytes(r.read_while(|b| !matches!(b, b' ' | b'?')))?;
+        /* the request target ends at a space; a line break in it ends nothing but the request line */
+        self.path.init_with_request_bytes(r.read_while(|b| !matches!(b, b' ' | b'?' | b'\r' | b'\n')))?;
 
         if r.consume_oneof([" ", "?"]).ok_or_else(Response::BadRequest)? == 1 {
-            self.query = QueryParams::new(r.read_while(|b| b != &b' '));
-            r.advance_by(1);
+            self.query = QueryParams::new(r.read_while(|b| !matches!(b, b' ' | b'\r' | b'\n')));
+            r.next_if(|b| *b==b' ').ok_or_else(Response::BadRequest)?;
         }
 
         r.consume("HTTP/1.1\r\n").ok_or_else(Response::HTTPVersionNotSupported)?;
